@@ -57,17 +57,23 @@ pub struct C14 {
     /// run as the actor-path part of C16 (removal): requests biased towards several handles, drops,
     /// re-creation and reads; violations are reported under C16
     pub removal_mode: bool,
+    /// run as the store-actor part of C10 ("whenever … the store actor stops during a session, both sides
+    /// finish … never panic or wait forever"): the general request mix; violations are reported under C10
+    pub stop_mode: bool,
 }
 
 impl C14 {
     pub fn new() -> Self {
-        C14 { keys: Keys::new(3, 2), cap_mode: false, removal_mode: false }
+        C14 { keys: Keys::new(3, 2), cap_mode: false, removal_mode: false, stop_mode: false }
     }
     pub fn capabilities() -> Self {
-        C14 { keys: Keys::new(3, 2), cap_mode: true, removal_mode: false }
+        C14 { keys: Keys::new(3, 2), cap_mode: true, removal_mode: false, stop_mode: false }
     }
     pub fn removal() -> Self {
-        C14 { keys: Keys::new(3, 2), cap_mode: false, removal_mode: true }
+        C14 { keys: Keys::new(3, 2), cap_mode: false, removal_mode: true, stop_mode: false }
+    }
+    pub fn stopping() -> Self {
+        C14 { keys: Keys::new(3, 2), cap_mode: false, removal_mode: false, stop_mode: true }
     }
     fn gen_req(&self, rng: &mut Rng, client: usize) -> Req {
         let n = if rng.chance(2, 3) { 0 } else { rng.below(3) };
@@ -146,13 +152,13 @@ fn err_kind(e: &anyhow::Error) -> String {
 impl Property for C14 {
     type Op = Op;
     fn id(&self) -> &'static str {
-        if self.cap_mode { "C07" } else if self.removal_mode { "C16" } else { "C14" }
+        if self.cap_mode { "C07" } else if self.removal_mode { "C16" } else if self.stop_mode { "C10" } else { "C14" }
     }
     fn parallel(&self) -> bool {
         false
     }
     fn case_prefix(&self) -> &'static str {
-        if self.cap_mode || self.removal_mode { "actor-" } else { "" }
+        if self.cap_mode || self.removal_mode || self.stop_mode { "actor-" } else { "" }
     }
     fn rule(&self) -> String {
         "1-3 concurrent clients, each a sequence of 2-12 requests (open with/without sync/subscribe, close, set-sync, subscribe, local insert/delete, remote insert, get, get-many, sync-initial-message, get-state, drop, import, export-secret) over 3 documents that start absent, read-only or writable; the recorded queue order is replayed on the Lean model of the actor; get_state after every request is compared with the history specification (usable iff opens - releases > 0); the store returned by shutdown is dumped; non-trivial = at least two clients interleaved or a document went through open -> close -> reuse".into()
@@ -561,16 +567,42 @@ impl Property for C14 {
         }
         // shutdown hands back the store with every acknowledged write; a request that is already
         // queued behind the shutdown must be answered (with an error), not left waiting (F14)
-        let (store, queued) = rt.block_on(async {
+        // … also when the shutdown arrives behind a backlog of requests (every other case: 24 state requests
+        // are queued right in front of it)
+        let backlog = if lines.len() % 2 == 0 { 24usize } else { 0 };
+        let (answered, store, queued) = rt.block_on(async {
             let h2 = handle.clone();
             let id = self.keys.namespaces[0].id();
+            let before: Vec<_> = (0..backlog)
+                .map(|_| {
+                    let h = handle.clone();
+                    tokio::spawn(async move { tokio::time::timeout(std::time::Duration::from_secs(5), h.get_state(id)).await.is_ok() })
+                })
+                .collect();
+            // let the spawned requests be sent (each task runs up to its wait for the reply)
+            tokio::task::yield_now().await;
             let shutdown = handle.shutdown();
             let state = h2.get_state(id);
-            tokio::join!(shutdown, async { tokio::time::timeout(std::time::Duration::from_secs(5), state).await })
+            let (store, queued) = tokio::join!(shutdown, async { tokio::time::timeout(std::time::Duration::from_secs(5), state).await });
+            let mut n = 0usize;
+            for t in before {
+                if matches!(t.await, Ok(true)) {
+                    n += 1;
+                }
+            }
+            ((n, ()), store, queued)
         });
         lines.push(Line::oracle(
             "sconst queued-behind-shutdown-is-answered",
             if queued.is_ok() { "queued-behind-shutdown-is-answered" } else { "request-queued-behind-shutdown-never-answered" },
+        ));
+        lines.push(Line::oracle(
+            "sconst backlog-before-shutdown-is-answered",
+            if answered.0 == backlog { "backlog-before-shutdown-is-answered".to_string() } else { format!("{}-of-{}-requests-in-front-of-the-shutdown-answered", answered.0, backlog) },
+        ));
+        lines.push(Line::oracle(
+            "sconst shutdown-hands-back-the-store",
+            if store.is_ok() { "shutdown-hands-back-the-store" } else { "shutdown-failed-store-lost" },
         ));
         let mut store = store?;
         iroh_docs::verif::set_clock_micros(None);
